@@ -104,6 +104,50 @@ def _lookup_pins(cb):
          {'brackets': 'brackets', 'pipe': 'pipe', 'quotes': 'quotes'}, 'tokenize: Tokenizer(...) arguments changed')
 
 
+def _fresh_result_pin(cb):
+    """callbacks.tokenize hands out the tree the Tokenizer just built, and keeps nothing: callers (Alias, Aka, Scheduler,
+    Conditional) substitute into the returned lists in place, so a result that is stored or shared would leak their edits
+    into later calls.  Fail-closed: tokenize may only refer to conf, Tokenizer, its own locals/parameters and builtins; its
+    only value-returning statement returns the name bound once to Tokenizer(...).tokenize(s); no global/nonlocal, no
+    subscript/attribute stores, no default-argument objects."""
+    import builtins
+    wrap = find_def(cb, 'tokenize')
+    need(all(isinstance(d, ast.Constant) and d.value is None for d in wrap.args.defaults), 'tokenize: a parameter default is not None')
+    need(not wrap.decorator_list, 'tokenize is decorated (memoised?)')
+    local = set(a.arg for a in wrap.args.args)
+    for n in ast.walk(wrap):
+        need(not isinstance(n, (ast.Global, ast.Nonlocal)), 'tokenize: global/nonlocal statement')
+        if isinstance(n, (ast.Assign, ast.AugAssign, ast.AnnAssign)):
+            targets = n.targets if isinstance(n, ast.Assign) else [n.target]
+            for t in targets:
+                need(isinstance(t, ast.Name), 'tokenize stores into %s (state outside its locals)' % ast.unparse(t))
+                local.add(t.id)
+        if isinstance(n, ast.ExceptHandler) and n.name:
+            local.add(n.name)
+        need(not isinstance(n, (ast.Lambda, ast.FunctionDef)) or n is wrap, 'tokenize: nested function')
+    free = set(n.id for n in ast.walk(wrap) if isinstance(n, ast.Name) and isinstance(n.ctx, ast.Load)) - local
+    free = set(x for x in free if not hasattr(builtins, x))
+    need(free <= {'conf', 'Tokenizer'}, 'tokenize refers to module-level names other than conf and Tokenizer: %s' % sorted(free))
+    rets = [n for n in ast.walk(wrap) if isinstance(n, ast.Return)]
+    need(len(rets) == 1 and isinstance(rets[0].value, ast.Name), 'tokenize: expected a single `return <name>`')
+    rname = rets[0].value.id
+    binds = [n for n in ast.walk(wrap) if isinstance(n, ast.Assign) and any(isinstance(t, ast.Name) and t.id == rname for t in n.targets)]
+    need(len(binds) == 1 and isinstance(binds[0].value, ast.Call) and isinstance(binds[0].value.func, ast.Attribute)
+         and binds[0].value.func.attr == 'tokenize' and isinstance(binds[0].value.func.value, ast.Call)
+         and ast.unparse(binds[0].value.func.value.func) == 'Tokenizer' and ast.unparse(binds[0].value.args[0]) == 's'
+         and len(binds[0].value.args) == 1 and not binds[0].value.keywords,
+         'tokenize: the returned value is not the fresh result of Tokenizer(...).tokenize(s)')
+    uses = [n for n in ast.walk(wrap) if isinstance(n, ast.Name) and n.id == rname and isinstance(n.ctx, ast.Load)]
+    need(len(uses) == 1, 'tokenize: the result is used for something else than being returned')
+    # Tokenizer.tokenize builds its lists itself: args/ends are fresh list displays, the return is `args`
+    tkz = find_def(cb, 'tokenize', 'Tokenizer')
+    inits = dict((n.targets[0].id, ast.unparse(n.value)) for n in tkz.body if isinstance(n, ast.Assign) and isinstance(n.targets[0], ast.Name))
+    need(inits.get('args') == '[]' and inits.get('ends') == '[]', 'Tokenizer.tokenize: args/ends no longer start as fresh lists')
+    ib = find_def(cb, '_insideBrackets', 'Tokenizer')
+    need(ast.unparse(ib.body[0]) == 'ret = []', 'Tokenizer._insideBrackets: ret no longer starts as a fresh list')
+
+
+
 @table('T13')
 def gen_T13():
     cb = tree('src/callbacks.py')
@@ -132,6 +176,7 @@ def gen_T13():
     need(len(rs) == 1 and isinstance(rs[0].exc, ast.Call) and ast.unparse(rs[0].exc.func) == 'SyntaxError',
          'callbacks.tokenize handler no longer raises SyntaxError')
     _lookup_pins(cb)
+    _fresh_result_pin(cb)
     # _handleToken: the codec chain and the bare except around the latin-1 step
     ht = find_def(cb, '_handleToken', 'Tokenizer')
     src = ast.unparse(ht)
